@@ -23,6 +23,10 @@ def problems():
     return {
         'linear2': (2, lambda X: 3.0 - X[0] - X[1], [stats.norm(), stats.norm()], np.eye(2), 3.0 / math.sqrt(2)),
         'linear2far': (2, lambda X: 6.0 - X[0] - X[1], [stats.norm(), stats.norm()], np.eye(2), 6.0 / math.sqrt(2)),
+        # a variable of tiny magnitude (a Paris-law coefficient of 4e-12 +- 1e-12) next to one of order one: two points that differ in the tiny
+        # variable only are different points
+        'tiny-variable': (2, lambda X: 3.0 - X[0] - 0.5 * (X[1] * 1e12 - 4.0), [stats.norm(), stats.norm(4e-12, 1e-12)], np.eye(2), 3.0 / math.sqrt(1.25)),
+        'linear1': (1, lambda X: 3.0 - X[0], [stats.norm()], np.eye(1), 3.0),
         'linear3': (3, lambda X: 4.0 - X[0] - X[1] - X[2], [stats.norm(), stats.norm(), stats.norm()], np.eye(3), 4.0 / math.sqrt(3)),
         'lognormal': (2, lambda X: X[0] * X[1] - 0.2, [stats.lognorm(0.5), stats.lognorm(0.3)], np.eye(2), None),
         'quadratic': (2, lambda X: 5.0 - X[0] ** 2 - X[1], [stats.norm(), stats.norm()], np.eye(2), None),
@@ -118,11 +122,19 @@ def check_run(res, name, N, p0, maxSub, seed, reqs, meta, quad=None, config=None
                  sig=f'C13:nestedness:{name}:{N}:{p0}:{seed}')
     # (c) X = T(U), g evaluated on X
     nat = rpm.NatafTransformation(r['dists'], r['corr'], **({} if quad is None else {'quadDeg': quad[0], 'quadRange': quad[1]}))
+    sds = np.array([float(ds.std()) for ds in r['dists']])
+    stop = False
     for k in range(m):
-        for i in (0, N // 2, N - 1):
+        for i in (range(N) if name == 'tiny-variable' else (0, N // 2, N - 1)):
             x, _ = nat.getX(r['U'][k][i])
-            if not np.allclose(x, r['X'][k][i], rtol=1e-9, atol=1e-12) or not math.isclose(float(r['g'](r['X'][k][i])), lsf[k][i], rel_tol=1e-9, abs_tol=1e-12):
-                fail(res, 'X is not the Nataf image of U / g not evaluated on X', case, {'level': k, 'index': i})
+            Xs = np.array(r['X'][k][i], dtype=float)
+            if not np.all(np.abs(np.array(x) - Xs) <= 1e-9 * np.abs(Xs) + 1e-10 * sds) or not math.isclose(float(r['g'](r['X'][k][i])), lsf[k][i], rel_tol=1e-9, abs_tol=1e-9):
+                fail(res, 'X is not the Nataf image of U / g not evaluated on X', case, {'level': k, 'index': i, 'X': Xs.tolist(), 'stored_g': float(lsf[k][i]),
+                                                                                        'g_of_X': float(r['g'](r['X'][k][i]))})
+                stop = True
+                break
+        if stop:
+            break
     # (d) pf
     converged = lsf[m - 1][nc - 1] <= 0
     res.stat('converged' if converged else 'stopped_by_maxSubsets')
@@ -174,6 +186,7 @@ def explore(res, rng, n):
     # needed (the seed fixes everything else), so the loop is left at numSteps == maxSubsets
     for sd in (1, 2):
         check_run(res, 'sqrt-domain', 200, 0.1, 12, sd, reqs, meta)
+    check_run(res, 'tiny-variable', 100, 0.1, 6, rng.randrange(10 ** 6), reqs, meta)
     for name, N, p0, sd in (('linear2', 50, 0.1, 11), ('lognormal', 100, 0.07, 5), ('quadratic', 40, 0.25, 3)):
         r0 = traced_run(name, N, p0, 12, sd)
         m = int(r0['lsf'].shape[0])
@@ -226,6 +239,33 @@ def coarse_band_under_config(res, rng):
                  {'pf': r['pf'], 'levels': int(r['lsf'].shape[0]), 'chains_that_moved': moved, 'chains': len(r['chains'])})
 
 
+def band_under_global_seed(res):
+    """a labelled coarse statistical check with FIXED seeds (identical on every run): with an integer seed installed through
+    globalConfig.setSeed and no randomSeed argument, the estimate for g = 3 - x (exact Phi( -3 )) at N = 500 stays within a factor 8 of the
+    exact value in at least four of six runs (global seeds 1 … 6; on the unchanged tree all six do, between 0.2 and 2.5).  Chains that all
+    restart from the same random stream move in lock-step and miss the band by orders of magnitude"""
+    from scipy import stats
+    from ffpack.config import globalConfig
+    exact = float(stats.norm.cdf(-3.0))
+    ratios = []
+    for gs in (1, 2, 3, 4, 5, 6):
+        try:
+            globalConfig.setSeed(gs)
+            r = traced_run('linear1', 500, 0.1, 8, None)
+            ratios.append(r['pf'] / exact)
+        except Exception as e:  # noqa
+            ratios.append(float('nan'))
+        finally:
+            globalConfig.setSeed(None)
+        res.evaluations += 1
+        res.stat('band_under_installed_global_seed')
+    inside = sum(1 for q in ratios if q == q and 1 / 8 <= q <= 8)
+    res.extra['band_under_global_seed'] = {'ratios_to_exact': ratios, 'inside_factor_8': inside}
+    if inside < 4:
+        fail(res, 'estimates under an installed global seed (no randomSeed argument) leave the factor-8 band around the exact failure probability in more than two of six runs',
+             {'problem': 'g = 3 - x, x ~ N(0,1)', 'numSamples': 500, 'probLevel': 0.1, 'global_seeds': [1, 2, 3, 4, 5, 6]}, {'pf_over_exact': ratios})
+
+
 def statistical(res, rng):
     """thorough tier only: a labelled statistical test, not a theorem (DESIGN §7)"""
     from scipy import stats
@@ -255,6 +295,7 @@ def run(tier, seed):
     rng = random.Random(seed)
     explore(res, rng, n)
     coarse_band_under_config(res, random.Random(seed + 11))
+    band_under_global_seed(res)
     if tier == 'thorough':
         statistical(res, rng)
     res.disagreements_checked = res.traces
